@@ -25,3 +25,114 @@ Proof.
   exact (tape_related semA semB rel good Hp inputsA inputsB Hin Hd tape e0a e0b out0a out0b Ho Hr Hg).
 Qed.
 Print Assumptions C03_soundness_through_composition.
+
+(* ---- interval enclosure over the extended reals (proofs in IntervalSound .. IntervalAll): every interval operation of Interval.v, instantiated at exact extended-real arithmetic, encloses the point operation; lifted to every tape ---- *)
+From Coq Require Import Reals Lra Lia Bool.
+From FV Require Import Ops Tape Interval Related ER ERLemmas IntervalSound IntervalTotal IntervalLibm IntervalTape
+     IntervalTransform IntervalTrig IntervalRem IntervalAtan2 IntervalTotal2 IntervalTapeTotal IntervalAll.
+Import ListNotations.
+
+Theorem C03_un_sound :
+  forall (rnd : er -> er) (mix : er -> er -> er),
+       rnd_in_unit rnd -> forall u : uop, sound1s (i_un (er_fl_gen rnd mix) u) (er_un rnd u).
+Proof. exact (@un_sound). Qed.
+Print Assumptions C03_un_sound.
+
+Theorem C03_bin_sound :
+  forall (rnd : er -> er) (mix : er -> er -> er) (b : bop),
+       sound2s (i_bin (er_fl_gen rnd mix) b) (er_bin mix b).
+Proof. exact (@bin_sound). Qed.
+Print Assumptions C03_bin_sound.
+
+Theorem C03_ifrom_sound :
+  forall (rnd : er -> er) (mix : er -> er -> er) (c : er) (r : interval er),
+       ifrom (er_fl_gen rnd mix) c = Some r -> valid r /\ encl r c.
+Proof. exact (@ifrom_sound). Qed.
+Print Assumptions C03_ifrom_sound.
+
+Theorem C03_interval_tape_sound :
+  forall (rnd : er -> er) (mix : er -> er -> er),
+       rnd_in_unit rnd ->
+       forall (tape : list (op er)) (n : nat) (pt : list er) (box : list (interval er)),
+       in_box pt box ->
+       reads_written (rev tape) [] ->
+       all_good (er_sem rnd mix) good pt (rev tape)
+         (init_state (fresh_env (er_sem rnd mix)) (fresh_out (er_sem rnd mix) n)) ->
+       Forall2 rel (eval_outputs (er_sem rnd mix) tape n pt)
+         (eval_outputs (interval_sem (er_fl_gen rnd mix)) tape n (map Some box)).
+Proof. exact (@interval_tape_sound). Qed.
+Print Assumptions C03_interval_tape_sound.
+
+Theorem C03_interval_tape_sound_nth :
+  forall (rnd : er -> er) (mix : er -> er -> er),
+       rnd_in_unit rnd ->
+       forall (tape : list (op er)) (n : nat) (pt : list er) (box : list (interval er)) 
+         (k : nat) (i : interval er),
+       in_box pt box ->
+       reads_written (rev tape) [] ->
+       all_good (er_sem rnd mix) good pt (rev tape)
+         (init_state (fresh_env (er_sem rnd mix)) (fresh_out (er_sem rnd mix) n)) ->
+       nth_error (eval_outputs (interval_sem (er_fl_gen rnd mix)) tape n (map Some box)) k =
+       Some (Some i) ->
+       exists v : er,
+         nth_error (eval_outputs (er_sem rnd mix) tape n pt) k = Some v /\ valid i /\ encl i v.
+Proof. exact (@interval_tape_sound_nth). Qed.
+Print Assumptions C03_interval_tape_sound_nth.
+
+Theorem C03_interval_tape_sound_er_fl :
+  forall (tape : list (op er)) (n : nat) (pt : list er) (box : list (interval er)),
+       in_box pt box ->
+       reads_written (rev tape) [] ->
+       all_good (er_sem (fun _ : er => EFin 0) (fun _ _ : er => EFin 0)) good pt 
+         (rev tape)
+         (init_state (fresh_env (er_sem (fun _ : er => EFin 0) (fun _ _ : er => EFin 0)))
+            (fresh_out (er_sem (fun _ : er => EFin 0) (fun _ _ : er => EFin 0)) n)) ->
+       Forall2 rel
+         (eval_outputs (er_sem (fun _ : er => EFin 0) (fun _ _ : er => EFin 0)) tape n pt)
+         (eval_outputs (interval_sem er_fl) tape n (map Some box)).
+Proof. exact (@interval_tape_sound_er_fl). Qed.
+Print Assumptions C03_interval_tape_sound_er_fl.
+
+Theorem C03_itransform_sound :
+  forall (rnd : er -> er) (mix : er -> er -> er) (ix iy iz : interval er) 
+         (px py pz : er) (m : list er) (a b c : interval er),
+       valid ix ->
+       valid iy ->
+       valid iz ->
+       encl ix px ->
+       encl iy py ->
+       encl iz pz ->
+       let
+       '(qx, qy, qz) := ptransform px py pz m in
+        qx <> ENaN ->
+        qy <> ENaN ->
+        qz <> ENaN ->
+        itransform (er_fl_gen rnd mix) ix iy iz m = Some (a, b, c) ->
+        (valid a /\ encl a qx) /\ (valid b /\ encl b qy) /\ valid c /\ encl c qz.
+Proof. exact (@itransform_sound). Qed.
+Print Assumptions C03_itransform_sound.
+
+Theorem C03_imul_hides_nan :
+  exists (a b : interval er) (x y : er) (r : interval er),
+         valid a /\
+         valid b /\
+         encl a x /\
+         encl b y /\
+         x <> ENaN /\
+         y <> ENaN /\
+         imul er_fl a b = Some r /\
+         er_mul x y = ENaN /\ has_nan er_fl r = false /\ ~ encl r (er_mul x y).
+Proof. exact (@imul_hides_nan). Qed.
+Print Assumptions C03_imul_hides_nan.
+
+Theorem C03_encl_not_compositional_and :
+  exists (a b : interval er) (x y : er) (r : interval er),
+         valid a /\
+         valid b /\
+         (x = ENaN \/ encl a x) /\
+         encl b y /\
+         y <> ENaN /\
+         fst (iand_choice er_fl a b) = Some r /\
+         er_and x y <> ENaN /\ ~ (er_and x y = ENaN \/ encl r (er_and x y)).
+Proof. exact (@encl_not_compositional_and). Qed.
+Print Assumptions C03_encl_not_compositional_and.
